@@ -25,8 +25,8 @@ def gen_case(rng, tier):
             c['ops'] = [op for op in c['ops'] if not (op[0] == 'nest' and _uses_app(op[1], c['app']))]
             c['write_at'] = min(c.get('write_at', 0), len(c['ops']))
         calls.append(c)
-    gran = 'line'      # opcode granularity disabled: CPython 3.12.1 segfaults under f_trace_opcodes (DESIGN.md 10)
-    est = 500 * n_thr * (6 if gran == 'opcode' else 1)
+    gran = 'instr' if rng.random() < 0.25 else 'line'      # 'instr': sys.monitoring INSTRUCTION events (DESIGN.md 10)
+    est = 500 * n_thr * (9 if gran == 'instr' else 1)
     return {'threads': calls, 'n_apps': n_apps, 'default_at': rng.choice([None, None, 0, 1]),
             'construct_order': rng.choice(['fwd', 'rev']), 'plan': gen_plan(rng, est, n_thr), 'gran': gran}
 
@@ -48,7 +48,8 @@ def run_case(case):
     n = len(calls)
     inflight = set()
     overlap = [0]
-    s = Sched(n, case['plan'], prefixes=PREFIXES, granularity=case.get('gran', 'line'))
+    s = Sched(n, case['plan'], prefixes=PREFIXES, granularity=case.get('gran', 'line'),
+              max_steps=(4_000_000 if case.get('gran') == 'instr' else 400_000))
 
     def on_switch(frm, to):
         if frm in inflight:      # pre-empted in the middle of its request
@@ -109,5 +110,5 @@ def shrink_candidates(case):
             yield c
     if case.get('default_at') is not None:
         yield shrink.with_key(case, 'default_at', None)
-    if case.get('gran') == 'opcode':
+    if case.get('gran') in ('opcode', 'instr'):
         yield shrink.with_key(case, 'gran', 'line')
